@@ -178,7 +178,9 @@ mod misc {
             //   runtime returns to the sequence
             // - How many times the runtime has looped around this full shuffle
             let seq_path_str = Object::get_path(seq_container.as_ref()).to_string();
-            let sequence_hash: i32 = seq_path_str.chars().map(|c| c as i32).sum();
+            let sequence_hash: i32 = seq_path_str
+                .chars()
+                .fold(0i32, |hash, c| hash.wrapping_add(c as i32));
             let random_seed = sequence_hash
                 .wrapping_add(loop_index)
                 .wrapping_add(self.get_state().story_seed);
